@@ -280,6 +280,41 @@ func genRuneSpec(dt *drv.T, cfg GenCfg) *GenSpec {
 	return s
 }
 
+// genGenericRuneSpec: a rune generator that is not Rune/RuneFrom, so it can hand StringOf values that are not
+// valid runes. At least one valid rune is always possible.
+func genGenericRuneSpec(dt *drv.T) *GenSpec {
+	if drv.Bool().Draw(dt, "runeint") {
+		s := &GenSpec{K: "runeint"}
+		switch pick(dt, "rirange", "neg", "byte", "surrogate", "top", "wide") {
+		case "neg":
+			s.SA, s.SB = -int64(drv.IntRange(1, 300).Draw(dt, "lo")), int64(pick(dt, "hi", 'b', 'z', 0x7f, 0xff, 0x100))
+		case "byte":
+			s.SA, s.SB = -128, 127
+		case "surrogate":
+			s.SA, s.SB = 0xd7ff-int64(drv.IntRange(0, 3).Draw(dt, "lo")), 0xd800+int64(drv.IntRange(0, 0x801).Draw(dt, "hi"))
+		case "top":
+			s.SA, s.SB = 0x10ffff-int64(drv.IntRange(0, 3).Draw(dt, "lo")), 0x10ffff+int64(drv.IntRange(1, 20).Draw(dt, "hi"))
+		default:
+			s.SA, s.SB = math.MinInt32, math.MaxInt32
+			if drv.Bool().Draw(dt, "small") {
+				s.SA, s.SB = -2, 2
+			}
+		}
+		return s
+	}
+	s := &GenSpec{K: "runesampled"}
+	s.Runes = append(s.Runes, pick(dt, "r", runePool...))
+	n := drv.IntRange(1, 4).Draw(dt, "nrunes")
+	for i := 0; i < n; i++ {
+		if drv.Bool().Draw(dt, "bad") {
+			s.Runes = append(s.Runes, pick(dt, "br", badRunes...), -int32(drv.IntRange(1, 300).Draw(dt, "neg")))
+		} else {
+			s.Runes = append(s.Runes, pick(dt, "r", runePool...))
+		}
+	}
+	return s
+}
+
 func genLenBounds(dt *drv.T, hostile bool, maxMax int) (int, int) {
 	switch pick(dt, "lenhow", "none", "none", "minonly", "maxonly", "both", "both", "equal", "zero") {
 	case "minonly":
@@ -382,6 +417,9 @@ func genStringSpec(dt *drv.T, cfg GenCfg) *GenSpec {
 	s.Min, s.Max = genLenBounds(dt, cfg.Hostile, 12)
 	if chance(dt, "ownrunes", 50) {
 		s.Sub = []*GenSpec{genRuneSpec(dt, cfg)}
+		if chance(dt, "genericrunes", 25) {
+			s.Sub[0] = genGenericRuneSpec(dt)
+		}
 	}
 	if chance(dt, "maxlen", 40) || cfg.RejectHeavy && chance(dt, "maxlen2", 50) {
 		lo := 0
@@ -683,7 +721,7 @@ func genSimpleBlock(dt *drv.T, pc ProgCfg, where string) []*Stmt {
 }
 
 func genRepeatStmt(dt *drv.T, pc ProgCfg, label *int) *Stmt {
-	st := &Stmt{Op: "repeat"}
+	st := &Stmt{Op: "repeat", Shared: chance(dt, "sharedmap", 25)}
 	na := drv.IntRange(1, 4).Draw(dt, "nactions")
 	names := actionNames(dt)
 	for i := 0; i < na; i++ {
